@@ -320,6 +320,8 @@ pub fn run(ctx: &Ctx) -> PropertyReport {
         }
         cases.push(LargeCase::ManyInstances { n: 65_537 });
         cases.extend(super::c01::more_large_cases(false));
+        // the XML reader requires two keypoints (generator domain of this property, section C02 of DESIGN.md)
+        cases.retain(|c| !matches!(c, LargeCase::MinimalColumn { kind, .. } if kind.ends_with("Sequence")));
         rep.push(ctx.run_list("large", cases, true, |c: &LargeCase, ctx: &mut CaseCtx| {
             let case = XmlCase { forest: super::c01::large_forest(c), pairing: Pairing::Unknown };
             roundtrip_body(&case, ctx)?;
